@@ -58,6 +58,7 @@ type Ctx struct {
 	Stop   bool // set by an engine whose enumeration is exhausted
 	trace  uint64
 	traceLog []string
+	seenKeys map[string]bool
 }
 
 // Trace mixes an event of the current run into its trace digest (determinism self-test).
@@ -96,10 +97,22 @@ func (c *Ctx) Sample(s any) {
 }
 func (c *Ctx) Violate(v Violation) {
 	v.RunSeed, v.RunIndex = c.Seed, c.Index
-	if len(c.Res.Violations) < 50 {
-		c.Res.Violations = append(c.Res.Violations, v)
-	}
 	c.Count("violations", 1)
+	// one record per failure class (key): repeated occurrences of a class - a known finding may fire
+	// thousands of times - must never crowd out a class seen for the first time
+	if c.seenKeys == nil {
+		c.seenKeys = map[string]bool{}
+	}
+	if c.seenKeys[v.Key] {
+		c.Count("violations-repeated-key", 1)
+		return
+	}
+	c.seenKeys[v.Key] = true
+	if len(c.Res.Violations) < 400 {
+		c.Res.Violations = append(c.Res.Violations, v)
+	} else {
+		c.Count("violations-dropped-over-400-distinct-keys", 1)
+	}
 }
 
 type engine struct {
